@@ -81,7 +81,9 @@ def gen_calls(rng, spec):
         elif x < 0.88:
             calls.append(["enable", rng.choice(["target", "vary"]), rng.randrange(max(spec["m"], spec["n"]))])
         elif x < 0.90:
-            calls.append(["clear_log"])
+            calls.append(["clear_log"] if rng.random() < 0.4 else
+                         ["other", rng.choice(["run_simplex", "run_jacobian", "run_bfgs", "run_l_bfgs_b", "run_ls_trf", "run_ls_dogbox",
+                                               "solve_homotopy", "run_simplex"]), rng.choice([1, 2, 3])])
         elif x < 0.96:
             # the user moves a goal (new target value / tolerance) after earlier calls, e.g. after a successful solve
             calls.append(["retarget", rng.randrange(spec["m"]), rng.choice([0.5, -1.0, 3.0, -4.0]), rng.choice([None, 1e-12])])
@@ -198,6 +200,20 @@ def check_problem(spec, calls, counters, violations):
                 counters["flag_changes_checked"] = counters.get("flag_changes_checked", 0) + 1
                 if [list(x) for x in S.flags()] != want_flags:
                     issues.append("%s(%s %d, API form %d) left the active flags at %s, expected %s" % (k, what, idx, form, S.flags(), want_flags))
+            elif k == "other":
+                # the other entry points of the same object; the rows THEY log are rows of the log like any other
+                L0 = len(opt._log["penalty"])
+                counters["other_entry_point_calls"] = counters.get("other_entry_point_calls", 0) + 1
+                try:
+                    getattr(opt, call[1])(n_steps=call[2])
+                finally:
+                    if call[1] == "solve_homotopy":
+                        # it moves the target values step by step: the goal in effect when each of its rows was logged is
+                        # not known to the harness (penalty of those rows not compared), the goal left behind is read back
+                        note_rows()
+                        for r_ in range(L0, len(row_tars)):
+                            row_tars[r_] = None
+                        S.spec["tars"][:] = [float(t.value) for t in S.targets]
             elif k == "clear_log":
                 opt.clear_log()
                 del row_tars[:]
@@ -219,6 +235,12 @@ def check_problem(spec, calls, counters, violations):
         S.fault_at = None
         note_rows()
         if issues:
+            break
+        if k == "other" and any(lim is not None and not lim[0] <= S.cont[S.names[i]] <= lim[1] for i, lim in enumerate(spec["limits"])):
+            # the unbounded scipy algorithms may leave the knobs outside their limits: no legal state to continue from
+            # (every further call evaluates the merit function, which refuses such a point); the rows logged so far are
+            # still examined below
+            counters["sequences_ended_outside_limits_after_unbounded_algorithm"] = counters.get("sequences_ended_outside_limits_after_unbounded_algorithm", 0) + 1
             break
     # ---- every row of the log --------------------------------------------------------------------
     lg = opt.log()
@@ -249,13 +271,16 @@ def check_problem(spec, calls, counters, violations):
                    for a, b in zip(fx, T[i])):
             issues.append("row %d records target values %s, an independent evaluation at its knobs gives %s" % (i, list(T[i]), list(fx)))
             break
-        r = np.where(np.array(ta), (fx - np.array(row_tars[i])) * wt, 0.0)
+        if row_tars[i] is None:
+            counters["rows_logged_inside_solve_homotopy"] = counters.get("rows_logged_inside_solve_homotopy", 0) + 1
+        rt = row_tars[i] if row_tars[i] is not None else list(S.spec["tars"])
+        r = np.where(np.array(ta), (fx - np.array(rt)) * wt, 0.0)
         pen = math.sqrt(float(np.dot(r, r)))
         # (non-unit knob weights: the logged evaluation happened at knob/weight*weight, so every target value may be a
         #  few ulps of ITS OWN magnitude away -- an absolute error that is large relative to a penalty close to zero)
-        slack = 1e-300 if unit else 256 * np.finfo(float).eps * float(max(1.0, np.max(np.abs(fx)), np.max(np.abs(row_tars[i])))) \
+        slack = 1e-300 if unit else 256 * np.finfo(float).eps * float(max(1.0, np.max(np.abs(fx)), np.max(np.abs(rt)))) \
             * float(np.max(np.abs(wt))) * math.sqrt(len(fx))
-        if not math.isclose(pen, float(lg["penalty"][i]), rel_tol=1e-12, abs_tol=slack):
+        if row_tars[i] is not None and not math.isclose(pen, float(lg["penalty"][i]), rel_tol=1e-12, abs_tol=slack):
             issues.append("row %d records penalty %r, an independent evaluation gives %r" % (i, float(lg["penalty"][i]), pen))
             break
         # reload(i) puts knobs and flags back, from wherever the model is: go to another row first
@@ -324,6 +349,6 @@ TEXT = ("Held on every log observed: ~680 (quick) / ~25 000 (thorough) problems 
         "row of every resulting log (~10 000 rows quick) is re-evaluated independently (targets exact, penalty 1e-12) "
         "and reloaded (knobs, flags), and every take_best step that returns is checked against the minimum penalty "
         "logged during that call. Exploration over sampled problems and call sequences."
-        ' Call sequences include directed move/disable/reload/step patterns, calls with an injected action fault at the k-th evaluation, and every row is reloaded coming from another row (preferably one with other flags).')
+        ' Call sequences include directed move/disable/reload/step patterns, calls with an injected action fault at the k-th evaluation, and every row is reloaded coming from another row (preferably one with other flags). The other entry points of the same object (run_simplex, run_jacobian, run_bfgs, run_l_bfgs_b, run_ls_trf, run_ls_dogbox, solve_homotopy) are called in between: the rows they log are checked like any other (the penalty of rows logged INSIDE solve_homotopy, whose moving goal the harness does not know, is not compared).')
 NOTE = "Trusted: the harness's own merit function and penalty formula; opt.log() as the recorded history under test."
 TECHNIQUE = "runtime monitoring: offline checker over the recorded optimizer log (independent re-evaluation and reload of every row; take_best minimum-penalty oracle per call)"
